@@ -72,7 +72,9 @@ Clause(o, op, ev) ==
       \* when the call raised, nothing may change (except the listed alternatives)
       unchangedOK(id) == \/ obs[id] = o[id]
                          \/ id \in DOMAIN exp.alt /\ obs[id] \in exp.alt[id]
+                         \/ "target" \in exp.free /\ id = ev.t
       okObj(id) == \/ obs[id] = expUpd(id)
+                   \/ "target" \in exp.free /\ id = ev.t
                    \/ "pos" \in exp.free /\ obs[id].c = expUpd(id).c /\ obs[id].v = expUpd(id).v
                         /\ PosValid(obs[id])
       fresh == FreshIdx(exp, ev)
